@@ -96,14 +96,17 @@ Invs == [
 Sel == CASE Profile = "q" -> [f |-> DOMAIN FDefs, g |-> {"G0", "G1", "G2", "G4", "G6"}, o |-> {"O0", "O1", "O4", "O3", "O7"}, i |-> DOMAIN Invs]
          [] Profile = "t" -> [f |-> DOMAIN FDefs, g |-> DOMAIN GDefs, o |-> DOMAIN ODefs, i |-> DOMAIN Invs]
 
-VARIABLES fsel, gsel, osel, isel, done
-vars == <<fsel, gsel, osel, isel, done>>
-Init == fsel = "" /\ gsel = "" /\ osel = "" /\ isel = "" /\ done = FALSE
+VARIABLES fsel, gsel, osel, isel, osel2, done
+vars == <<fsel, gsel, osel, isel, osel2, done>>
+Init == fsel = "" /\ gsel = "" /\ osel = "" /\ isel = "" /\ osel2 = "" /\ done = FALSE
 
-PickF == fsel = "" /\ \E f \in Sel.f : fsel' = f /\ UNCHANGED <<gsel, osel, isel, done>>
-PickG == fsel # "" /\ gsel = "" /\ \E g \in Sel.g : gsel' = g /\ UNCHANGED <<fsel, osel, isel, done>>
-PickO == gsel # "" /\ osel = "" /\ \E o \in Sel.o : osel' = o /\ UNCHANGED <<fsel, gsel, isel, done>>
-PickI == osel # "" /\ isel = "" /\ \E i \in Sel.i : isel' = i /\ UNCHANGED <<fsel, gsel, osel, done>>
+PickF == fsel = "" /\ \E f \in Sel.f : fsel' = f /\ UNCHANGED <<gsel, osel, isel, osel2, done>>
+PickG == fsel # "" /\ gsel = "" /\ \E g \in Sel.g : gsel' = g /\ UNCHANGED <<fsel, osel, isel, osel2, done>>
+PickO == gsel # "" /\ osel = "" /\ \E o \in Sel.o : osel' = o /\ UNCHANGED <<fsel, gsel, isel, osel2, done>>
+PickI == osel # "" /\ isel = "" /\ \E i \in Sel.i : isel' = i /\ UNCHANGED <<fsel, gsel, osel, osel2, done>>
+\* history: after the line has been expanded once, O is #undef'ed and #define'd again (possibly
+\* to the same body) and the SAME line is expanded again with the SAME macro objects for F and G
+PickO2 == isel # "" /\ osel2 = "" /\ \E o \in {osel, "O1", "O7", "O4"} : osel2' = o /\ UNCHANGED <<fsel, gsel, osel, isel, done>>
 
 Table == [n \in ({"F"} \cup (IF gsel # "G0" THEN {"G"} ELSE {}) \cup (IF osel # "O0" THEN {"O"} ELSE {})
                  \cup (IF osel = "O3" THEN {"P"} ELSE {})) |->
@@ -112,6 +115,9 @@ Table == [n \in ({"F"} \cup (IF gsel # "G0" THEN {"G"} ELSE {}) \cup (IF osel # 
 
 Fuel == 60
 Result == Expand(Table, Invs[isel], Fuel)
+Table2 == [n \in (DOMAIN Table \cup (IF osel2 # "O0" THEN {"O"} ELSE {})) \ (IF osel2 = "O0" THEN {"O"} ELSE {}) |->
+             IF n = "O" THEN ODefs[osel2] ELSE Table[n]]
+Result2 == Expand(Table2, Invs[isel], Fuel)
 Names(ts) == {ts[i].s : i \in 1..Len(ts)}
 Ill(ts) == "__ILL__" \in Names(ts) \/ "__FUEL__" \in Names(ts)
 
@@ -120,19 +126,22 @@ MacroOut(n) == LET m == Table[n] IN [name |-> n, fn |-> m.fn, params |-> m.param
 
 Hash == (Len(Invs[isel]) * 3 + Len(FDefs[fsel].body) * 5 + Len(GDefs[gsel].body) + Len(ODefs[osel].body) * 7) % NShards
 
-Emit == /\ isel # "" /\ ~done /\ done' = TRUE /\ UNCHANGED <<fsel, gsel, osel, isel>>
+Emit == /\ osel2 # "" /\ ~done /\ done' = TRUE /\ UNCHANGED <<fsel, gsel, osel, isel, osel2>>
         /\ (Hash = Shard) =>
              LET r == Result IN
-             PrintT(ToJson([ids |-> <<fsel, gsel, osel, isel>>,
+             PrintT(ToJson([ids |-> <<fsel, gsel, osel, isel, osel2>>,
                             macros |-> [n \in DOMAIN Table |-> MacroOut(n)],
                             inv |-> Sps(Invs[isel]), out |-> Sps(r), kinds |-> [i \in 1..Len(r) |-> r[i].k],
-                            ill |-> Ill(r)]))
+                            ill |-> Ill(r),
+                            redef |-> IF osel2 = "O0" THEN [name |-> "O", fn |-> FALSE, params |-> <<>>, va |-> FALSE, body |-> <<"__UNDEF__">>]
+                                      ELSE [name |-> "O", fn |-> FALSE, params |-> <<>>, va |-> FALSE, body |-> Sps(ODefs[osel2].body)],
+                            out2 |-> Sps(Result2), ill2 |-> Ill(Result2)]))
 
-Next == PickF \/ PickG \/ PickO \/ PickI \/ Emit
+Next == PickF \/ PickG \/ PickO \/ PickI \/ PickO2 \/ Emit
 Spec == Init /\ [][Next]_vars
 
 \* M: expansion terminates within the fuel for every table (no __FUEL__ marker) ...
-Terminates == (isel # "" /\ ~done) => "__FUEL__" \notin Names(Result)
+Terminates == (osel2 # "" /\ ~done) => "__FUEL__" \notin Names(Result)
 \* ... and is stable: expanding the result again (hide sets kept) changes nothing
-Stable == (isel # "" /\ ~done) => (LET r == Result IN ~Ill(r) => Sps(Expand(Table, r, Fuel)) = Sps(r))
+Stable == (osel2 # "" /\ ~done) => (LET r == Result IN ~Ill(r) => Sps(Expand(Table, r, Fuel)) = Sps(r))
 ============================================================================
